@@ -172,7 +172,10 @@ where
         writer: &mut WriteConnection<<Listener::Socket as Socket>::WriteHalf>,
     ) -> crate::Result<Option<Service::ReplyStream>> {
         let mut stream = None;
+        let oneway = call.oneway();
         match self.service.handle(call).await {
+            // The caller of a oneway method does not expect any reply.
+            MethodReply::Single(_) | MethodReply::Error(_) | MethodReply::Multi(_) if oneway => (),
             MethodReply::Single(params) => {
                 let reply = Reply::new(params).set_continues(Some(false));
                 writer.send_reply(&reply).await?
